@@ -118,6 +118,10 @@ impl TryFrom<DateTime<Nanosecond>> for CrDateTime<Utc> {
     type Error = TError;
     #[inline]
     fn try_from(dt: DateTime<Nanosecond>) -> TResult<Self> {
+        // NaT (i64::MIN) is not an instant; the other units reject it through chrono's range check
+        if dt.is_nat() {
+            return Err(terr!("Failed to convert NaT to CrDateTime"));
+        }
         Ok(CrDateTime::from_timestamp_nanos(dt.0))
     }
 }
